@@ -55,6 +55,11 @@ structure Site where
       on the collected elements, i.e. these fields must determine the element; that premise is
       not visible syntactically and has to be on `reviewedSortKeys`. -/
   sortKeys : List String
+  /-- for a `keyedWrite` whose index is not the range key itself but one function application
+      to it: "dst[f(key)] body=<hash of f's declaration>".  `S_keyed_write` needs `f` injective
+      on the ranged keys; that premise has to be on `reviewedKeyDerivations`, pinned to the
+      body of `f` (a changed `f` has a different hash and is not reviewed). -/
+  keyDerivs : List String
   outsideRun : Bool     -- enclosing function unreachable from cmd/cli and the public API
   ptrKey : Bool         -- key type whose identity is an address (no sort can fix that)
   deriving Repr
